@@ -116,6 +116,7 @@ def build_texts(tier):
         texts += F.consuming_singles(ops + ["SMOD", "SAR", "BYTE", "SIGNEXTEND"])
         texts += F.f_exh(2)
         texts += F.f_mem_consuming()
+        texts += F.f_keccak_pairs()
         texts += F.f_mem_shared_values(deltas=(0, 32), tail=(None,), head=("SLOAD", "MLOAD"))
     else:
         texts += F.f_mem((2,))
@@ -131,6 +132,7 @@ def build_texts(tier):
         texts += F.consuming_singles(ops + ["SMOD", "SAR", "BYTE", "SIGNEXTEND"])
         texts += F.f_exh(3)
         texts += F.f_mem_consuming(deltas=(0, 1, 31, 32))
+        texts += F.f_keccak_pairs()
         texts += F.f_mem_shared_values(deltas=(0, 1, 32), tail=(None, "MLOAD"), head=("SLOAD", "MLOAD"))
     seen, uniq = set(), []
     for t in texts:
